@@ -94,6 +94,8 @@ def run(repo: Repo, L: Ledger, tier: str):
     )
 
     # ---- R2
+    from ..finite import UNKNOWN as _UNK, Opaque as _Opq
+
     namer = repo.cls("ScaffoldNamer")
     mk = namer.methods.get("make_scaffold_name")
     label = namer.methods.get("label_scaffold")
@@ -109,16 +111,26 @@ def run(repo: Repo, L: Ledger, tier: str):
         "self.haplotype_from_first_row_name(" + mp[1] + ")": None,
     }
     res = [r for r in run_paths(mk.node.body, env, loop_iters=(0,)) if r["path"].status != "raise"]
-    ok2, why2 = len(res) == 1 and not res[0]["unknown_conds"], f"{len(res)} feasible paths for an untagged scaffold"
-    if ok2:
-        e = res[0]["env"]
-        got = (e.get("self.current_scaffold_name"), e.get("self.current_rank"), e.get("self.current_haplotype"))
-        from ..finite import UNKNOWN as _UNK, Opaque as _Opq
 
-        if any(x is _UNK or isinstance(x, _Opq) for x in got):
-            raise AnalysisError(f"{mk.short}: the name / rank / haplotype of an untagged scaffold is computed through a helper that constant propagation does not follow ({got})")
-        ok2 = got == ("INPUT_NAME", 3, None)
-        why2 = f"an untagged, unpainted Pretext scaffold is named/ranked {got}, expected ('<name of its first row>', 3, None)"
+    def _r2_verdict(res_, keys_, want_, who_, what_):
+        """every completing path of the probe must yield `want_`; one decided path yielding something else refutes; paths that
+        differ under conditions the probe does not decide give no verdict"""
+        gots = []
+        for r_ in res_:
+            g_ = tuple(r_["env"].get(k_) for k_ in keys_)
+            if any(x is _UNK or isinstance(x, _Opq) for x in g_):
+                raise AnalysisError(f"{who_}: {what_} is computed through a helper that constant propagation does not follow ({g_})")
+            gots.append(g_)
+        if gots and all(g_ == want_ for g_ in gots):
+            return True, ""
+        if len(res_) == 1 and not res_[0]["unknown_conds"]:
+            return False, gots[0]
+        if not res_:
+            return False, "no completing path"
+        raise AnalysisError(f"{who_}: {what_} depends on conditions the probe does not decide ({len(res_)} paths, results {sorted(set(map(repr, gots)))}): no verdict")
+
+    ok2, got = _r2_verdict(res, ("self.current_scaffold_name", "self.current_rank", "self.current_haplotype"), ("INPUT_NAME", 3, None), mk.short, "the name / rank / haplotype of an untagged scaffold")
+    why2 = f"an untagged, unpainted Pretext scaffold is named/ranked {got}, expected ('<name of its first row>', 3, None)"
     L.check(ok2, "R2", mk.short, "current name = first row's (input scaffold) name, rank 3, no haplotype", why2, mk.loc())
     lp = label.params()
     env = {
@@ -132,14 +144,8 @@ def run(repo: Repo, L: Ledger, tier: str):
         f"{lp[1]}.tag": None,
     }
     res = [r for r in run_paths(label.node.body, env, loop_iters=(0,)) if r["path"].status != "raise"]
-    ok2b, why2b = len(res) == 1 and not res[0]["unknown_conds"], "label_scaffold: undecided for an untagged piece"
-    if ok2b:
-        e = res[0]["env"]
-        got = (e.get(f"{lp[1]}.name"), e.get(f"{lp[1]}.rank"), e.get(f"{lp[1]}.tag"), e.get(f"{lp[1]}.haplotype"))
-        if any(x is _UNK or isinstance(x, _Opq) for x in got):
-            raise AnalysisError(f"{label.short}: labelling of an untagged piece goes through a helper that constant propagation does not follow ({got})")
-        ok2b = got == ("INPUT_NAME", 3, None, None)
-        why2b = f"an untagged piece is labelled {got}, expected ('INPUT_NAME', 3, None, None)"
+    ok2b, got = _r2_verdict(res, (f"{lp[1]}.name", f"{lp[1]}.rank", f"{lp[1]}.tag", f"{lp[1]}.haplotype"), ("INPUT_NAME", 3, None, None), label.short, "the labelling of an untagged piece")
+    why2b = f"an untagged piece is labelled {got}, expected ('INPUT_NAME', 3, None, None)"
     L.check(ok2b, "R2", label.short, "piece labelled with the current name/rank, no tag", why2b, label.loc())
 
     # ---- R3 (shared rules)
